@@ -60,7 +60,7 @@ def judge(acc, case, prog, cfg, rng):
             acc.count("resolves_judged")
             f2, info2 = oracles.certificate_check(rec2, out2[1], cfg.get("mode", "dual"))
             for f in f2:
-                if f["key"] != "identity_open_in_span_of_lmi_entry_symmetries":
+                if f["key"] not in oracles.C01_KNOWN_KEYS:
                     findings.append(dict(f, key="after_resolve:" + f["key"], what="second solve of the same object: " + f["what"]))
     return findings
 
